@@ -1421,7 +1421,11 @@ pub fn c04(ctx: &Ctx) -> Report {
     let mut model = Model::spawn(&ctx.model_path);
     let mut rng = Rng::new(ctx.seed ^ 0xC04);
     let n = budget(ctx, 50, 1500);
+    let only_k: Option<usize> = std::env::var("VERIF_ONLY_K").ok().and_then(|x| x.parse().ok());
     for k in 0..n {
+        if only_k.map(|m| k > m).unwrap_or(false) {
+            break;
+        }
         let o = ScOpts { fat32: Some(k % 3 == 0), multi_volume: k % 2 == 0, keep_free: if k % 3 == 1 { Some(vec![0, 1, 3]) } else { None }, ..Default::default() };
         let sc = make_scenario(&mut rng, &o);
         let mut cfg = RunCfg::base(budget(ctx, 50, 70), if k % 2 == 0 { Profile::general() } else { Profile::space() });
